@@ -111,10 +111,10 @@ def audit(prop, thorough=False):
             fh.write(f"#print axioms {n}\n")
     rc, out = sh(["lake", "env", "lean", f], cwd=LEAN, timeout=1200)
     res["audit_rc"] = rc
-    for m in re.finditer(r"'([^']+)' depends on axioms: \[([^\]]*)\]", out.replace("\n", " ")):
+    for m in re.finditer(r"'(\S+?)' depends on axioms: \[([^\]]*)\]", out.replace("\n", " ")):
         axs = [a.strip() for a in m.group(2).split(",") if a.strip()]
         res["axioms"][m.group(1)] = axs
-    for m in re.finditer(r"'([^']+)' does not depend on any axioms", out):
+    for m in re.finditer(r"'(\S+?)' does not depend on any axioms", out):
         res["axioms"][m.group(1)] = []
     for n in names:
         if n not in res["axioms"]:
